@@ -192,7 +192,13 @@ fn build_case(case: usize, rng: &mut Rng, n: usize) -> (World, Arc<ReadonlyRepo>
         let target = RefTarget::normal(world.cid(rng.range(1, n)));
         if rng.chance(1, 2) {
             let d = known_ids[cidx].clone();
-            let l = rng.range(1, 4);
+            // half of the names are exactly some commit's shortest prefix (input
+            // generation only: makes disambiguate_prefix_with_refs lengthen it)
+            let l = if rng.chance(1, 2) {
+                repo.index().shortest_unique_commit_id_prefix_len(&world.cid(cidx)).block_on().unwrap().clamp(1, 6)
+            } else {
+                rng.range(1, 4)
+            };
             let name = hex_string(&d[..l]);
             if rng.chance(1, 2) {
                 tx.repo_mut().set_local_bookmark_target(RefName::new(&name), target);
@@ -202,7 +208,11 @@ fn build_case(case: usize, rng: &mut Rng, n: usize) -> (World, Arc<ReadonlyRepo>
             crefs.push(d[..l].to_vec());
         } else {
             let d = change_of[cidx - 1].clone();
-            let l = rng.range(1, 4);
+            let l = if rng.chance(1, 2) {
+                repo.shortest_unique_change_id_prefix_len(world.commit(cidx).change_id()).block_on().unwrap().clamp(1, 8)
+            } else {
+                rng.range(1, 4)
+            };
             let bytes = change_id_from_digits(&d);
             let rev = hex_util::encode_reverse_hex(bytes.as_bytes());
             let name = &rev[..l];
